@@ -242,22 +242,13 @@ def discover_extra_refs():
 
 
 def run(ctx: Ctx) -> Outcome:
-    n = ctx.n(600, 8000)
+    n = ctx.n(2000, 10000)
     out, results = engcheck.run_programs(ctx, n, dict(GEN, n_stmts=ctx.n(9, 16)), "oracle", nontrivial)
     out.rule = ("random programs interleaving reads, views and in-place writes (item assignment with basic/int-array incl. "
                 "repeated/boolean keys and broadcast values, augmented assignment, ufunc out= with optional where=) on bases, "
                 "views and views of views, one final backward; non-trivial = an in-place update whose target is read before and "
                 "after it; distinct by program hash.  Plus forward/mutate-input/backward cases for 20 op classes.")
-    seen = set()
-    for r in results:
-        for cls, msg in r["fails"]:
-            if cls in seen:
-                continue
-            seen.add(cls)
-            small = engcheck.shrink(r["prog"], _fails_pred(cls)) if cls != "ORACLE-CRASH" else r["prog"]
-            sig = f"C05|{cls}|{engcheck.prog_signature(small)}"
-            msgs = [m for c, m in oracle(small, 0) if c == cls] or [msg]
-            out.violations.append(Violation(sig, f"{cls}: {msgs[0]}", {"kind": "program", "program": small, "class": cls}))
+    seen = engcheck.report(out, results, "C05", oracle)
     # H_vars_only
     ncases = len(op_cases())
     items = [(ctx.seed, ci, w, mi) for ci in range(ncases) for w in range(3) for mi in range(ctx.n(2, 3))]
